@@ -9,7 +9,10 @@ From Dasp Require Import Base.Res Base.Float Dsp.MInt Dsp.EnvNum Dsp.Peak Dsp.En
 Import ListNotations.
 Open Scope Z_scope.
 
-Inductive eop := EFrame (v : list Z) | EAttack (bits : Z) | ERelease (bits : Z).
+(* EPull: one more pull from the adaptor after its finite source is exhausted (the source yields
+   Frame::EQUILIBRIUM, DetectEnvelope::next feeds it to the detector like any other frame);
+   EParts v: DetectEnvelope::into_parts, then the returned detector gets frame v (mode 0: the detector itself) *)
+Inductive eop := EFrame (v : list Z) | EAttack (bits : Z) | ERelease (bits : Z) | EPull | EParts (v : list Z).
 Inductive c19case :=
 | RCase (fmt nch : Z) (frames : list (list Z))
 | ECase (fmt nch det window attack release mode : Z) (ops : list eop).
@@ -52,6 +55,10 @@ Variables (X DS : Type).
 Variable enc : X -> Z.
 Variable step_frame : f32 -> f32 -> list X -> list X -> res (list X).   (* ga gr last detected *)
 Variable detect : DS -> list Z -> res (list X * DS).
+Variable adapt : bool.          (* adaptor modes: tag 24 with the is_exhausted flag *)
+Variable eqframe : list Z.      (* Frame::EQUILIBRIUM of the source format *)
+
+Definition is_frame (o : eop) : bool := match o with EFrame _ => true | _ => false end.
 
 Definition is_zero_time (b : Z) : bool := F32.eqb (F32.of_bits b) F32.zero.
 
@@ -73,7 +80,33 @@ Fixpoint drive (fuel : nat) (last : list X) (ga gr : Z) (ds : DS) (ops : list eo
     match detect ds v with
     | Ok (d, ds') =>
       match step_frame (F32.of_bits ga) (F32.of_bits gr) last d with
-      | Ok e => (20 :: map enc e ++ map enc d) :: drive fuel' e ga gr ds' t (tl obs)
+      | Ok e => ((if adapt then [24; 0] else [20]) ++ map enc e ++ map enc d) :: drive fuel' e ga gr ds' t (tl obs)
+      | Panic k => [[8; zn (panic_code k)]]
+      | UB => [[-2]]
+      end
+    | Panic k => [[8; zn (panic_code k)]]
+    | UB => [[-2]]
+    end
+  | EPull :: t =>
+    (* only meaningful in the adaptor modes once every source frame has been pulled *)
+    if negb adapt || existsb is_frame t then [[-3]] else
+    match detect ds eqframe with
+    | Ok (d, ds') =>
+      match step_frame (F32.of_bits ga) (F32.of_bits gr) last d with
+      | Ok e => ([24; 1] ++ map enc e ++ map enc d) :: drive fuel' e ga gr ds' t (tl obs)
+      | Panic k => [[8; zn (panic_code k)]]
+      | UB => [[-2]]
+      end
+    | Panic k => [[8; zn (panic_code k)]]
+    | UB => [[-2]]
+    end
+  | EParts v :: t =>
+    (* into_parts hands back the source (exhausted iff no frame is left: here always, the generator
+       puts EParts last) and the detector with its envelope state and gains intact *)
+    match detect ds v with
+    | Ok (d, ds') =>
+      match step_frame (F32.of_bits ga) (F32.of_bits gr) last d with
+      | Ok e => ([25; ga; gr; if adapt then 1 else 0] ++ map enc e ++ map enc d) :: nil
       | Panic k => [[8; zn (panic_code k)]]
       | UB => [[-2]]
       end
@@ -103,24 +136,27 @@ Definition fdetect (N : num) (dec : Z -> T N) (ds : fdet N) (v : list Z) : res (
   end.
 
 Definition run_env_float (N : num) (gconv : f32 -> G N) (dec : Z -> T N) (enc : T N -> Z)
-  (nch det win attack release : Z) (ops : list eop) (obs : list (list Z)) : list (list Z) :=
+  (nch det win attack release : Z) (adapt : bool) (ops : list eop) (obs : list (list Z)) : list (list Z) :=
   let k := Z.to_nat nch in
   let ds := if det =? 3 then FRms (rms_new N k (Z.to_nat win)) else FPeak det in
-  drive_case (T N) (fdet N) enc (fstep N gconv) (fdetect N dec) (repeat (nzero N) k) ds attack release ops obs.
+  drive_case (T N) (fdet N) enc (fstep N gconv) (fdetect N dec) adapt (repeat 0 k)
+    (repeat (nzero N) k) ds attack release ops obs.
 
 (* integer frame formats, peak detectors: envelope in the integer format *)
-Definition run_env_int_peak (f : ifmt) (nch det attack release : Z) (ops : list eop) (obs : list (list Z)) :=
+Definition run_env_int_peak (f : ifmt) (nch det attack release : Z) (adapt : bool) (ops : list eop) (obs : list (list Z)) :=
   let of := peak_out_fmt f det in
   drive_case Z unit (fun z => z)
     (fun ga gr last d => map2M (env_step_i of ga gr) last d)
     (fun _ v => let* d := detect_peak_i f det v in Ok (d, tt))
+    adapt (repeat (equil f) (Z.to_nat nch))
     (repeat (equil of) (Z.to_nat nch)) tt attack release ops obs.
 
 (* integer frame formats, RMS detector: to_float_frame then everything in f32 *)
-Definition run_env_int_rms (f : ifmt) (nch win attack release : Z) (ops : list eop) (obs : list (list Z)) :=
+Definition run_env_int_rms (f : ifmt) (nch win attack release : Z) (adapt : bool) (ops : list eop) (obs : list (list Z)) :=
   let k := Z.to_nat nch in
   drive_case f32 (rms NumF32) F32.bits (fstep NumF32 (fun g => g))
     (fun r v => let* x := mapM (to_f32 f) v in rms_next NumF32 r x)
+    adapt (repeat (equil f) k)
     (repeat F32.zero k) (rms_new NumF32 k (Z.to_nat win)) attack release ops obs.
 
 Definition nchan (nch : Z) : Z := if nch =? 0 then 1 else nch.   (* 0 = bare sample as mono frame *)
@@ -128,14 +164,15 @@ Definition nchan (nch : Z) : Z := if nch =? 0 then 1 else nch.   (* 0 = bare sam
 Definition model_obs (c : c19case) (obs : list (list Z)) : list (list Z) :=
   match c with
   | RCase fmt _ frames => run_rect fmt frames
-  | ECase fmt nch det win attack release _ ops =>
+  | ECase fmt nch det win attack release mode ops =>
     let k := nchan nch in
+    let adapt := negb (mode =? 0) in
     match ifmt_of fmt with
-    | Some f => if det =? 3 then run_env_int_rms f k win attack release ops obs
-                else run_env_int_peak f k det attack release ops obs
+    | Some f => if det =? 3 then run_env_int_rms f k win attack release adapt ops obs
+                else run_env_int_peak f k det attack release adapt ops obs
     | None =>
-      if fmt =? 12 then run_env_float NumF32 (fun g => g) F32.of_bits F32.bits k det win attack release ops obs
-      else run_env_float NumF64 (fun g => g) F64.of_bits F64.bits k det win attack release ops obs
+      if fmt =? 12 then run_env_float NumF32 (fun g => g) F32.of_bits F32.bits k det win attack release adapt ops obs
+      else run_env_float NumF64 (fun g => g) F64.of_bits F64.bits k det win attack release adapt ops obs
     end
   end.
 
